@@ -399,7 +399,7 @@ func GenList(r *prng.R, idx int) ListSpec {
 			m.Framerate = 25
 			m.STLDisplayStandardCode = "1"
 		}
-		switch r.Intn(3) { // STL dates: both, one, none
+		switch r.Intn(4) { // STL dates: both, creation only, revision only, none
 		case 0:
 			t1 := time.Date(2017, 7, 2, 0, 0, 0, 0, time.UTC)
 			t2 := time.Date(2019, 12, 31, 0, 0, 0, 0, time.UTC)
@@ -407,6 +407,9 @@ func GenList(r *prng.R, idx int) ListSpec {
 		case 1:
 			t1 := time.Date(2001, 1, 1, 0, 0, 0, 0, time.UTC)
 			m.STLCreationDate = &t1
+		case 2:
+			t2 := time.Date(2011, 11, 11, 23, 30, 0, 0, time.UTC)
+			m.STLRevisionDate = &t2
 		}
 		if r.Bool(0.3) {
 			m.WebVTTTimestampMap = &astisub.WebVTTTimestampMap{Local: time.Second, MpegTS: 900000}
